@@ -620,6 +620,11 @@ func genSettingKind(r *Rng, kind string, huge bool) gSet {
 		case "tlscert":
 			p, ok1 := pick(m.cert, false)
 			k, ok2 := pick(m.key, false)
+			if r.Chance(6) {
+				// both blocks empty: the six header bytes are the whole setting, which both Validate and
+				// Build refuse (the header guard is `i+6 >= n`)
+				p, k, ok1 = nil, nil, false
+			}
 			return gSet{name: kind, tok: fmt.Sprintf("tlscert:%d:%s:%s", v, hx(p), hx(k)), mk: func() cfg.Setting { return cfg.ConnectTLSCerts(uint16(v), p, k) }, ok: ok1 && ok2, big: len(p)+len(k) > 60000,
 				apply: func(e *eProf, _ *int) {
 					e.conn, e.encoded = tlsDesc(true, v, nil, cut(p, 0xFFFF), cut(k, 0xFFFF)), true
